@@ -329,11 +329,15 @@ they are listed in §8 with the property whose check found them.
   futures after k polls, a 4-thread runtime for C01) and labelled as measured, not proved. Two of
   the defects found this way (the engine wait cycle 0f7cff3, the unsettled-entry race 4ebf411) are
   of exactly this kind: no theorem about the logic could have shown them.
-* The typed layer models the 32 list-encoded composites and the unions built from them. Messages
-  (sections, body kinds: hand-written `Serialize` / `Deserialize`), the map-encoded and `basic`
-  composites (message sections, `amqp-value`, `data`, `amqp-sequence`), `SaslMechanisms` and the
-  management / CBS / filter crates have no Lean model; messages are covered by the end-to-end runs
-  (C01, C10, C16) only. `decodeTyped` is *defined* as value decoding followed by the tree-level
+* The typed layer models the 32 list-encoded composites, the unions built from them, and messages
+  (`Amqp/Message.lean`: sections in the order of the standard, the three body kinds, batches of data
+  and amqp-sequence sections; `message_roundtrip`). `Body::Empty` is not a body of the AMQP type
+  system: it is written as an amqp-value holding null and comes back as that (proved,
+  `empty_body_is_written_as_null`; counted in the evidence, not judged). In the model a data /
+  amqp-sequence section continues the batch read so far even when another section lies in between
+  (the implementation reads only consecutive ones): the two differ only on inputs that no conforming
+  peer writes. `SaslMechanisms`, generic `AmqpValue<T>` / `AmqpSequence<T>` bodies of other types than
+  `Value`, and the management / CBS / filter crates have no Lean model. `decodeTyped` is *defined* as value decoding followed by the tree-level
   reading; where the implementation's typed decoder is more lenient than that (it ignores a list's
   size field, reads a composite cut short as if its remaining fields were absent, leaves fields
   beyond the declared ones unread) the two are compared only where both accept, and the counts of
